@@ -75,3 +75,14 @@ PROPS["C12"] = {
     "outside": ["malleability switch (C03 decides non-malleability behaviourally)", "has_repeated_keys beyond the all-keys-equal instantiation", "strings other than the library's own printed forms", "nesting depth limit"],
     "assumptions": ["parsers/constructors ran NATIVELY; the solver decided (by constant propagation for the table-only clauses, by SAT for the sigless clause) statements about what was accepted"] + _W_ASSUME[1:],
 }
+
+PROPS["C04"] = {
+    "level": "proof",
+    "trusted_base": COMMON_TB + ["/verif/harness/src/c04.rs: canonical token serialiser (folds VERIFY into EQUAL/NUMEQUAL/CHECKSIG/CHECKMULTISIG, minimal numbers)", "rust-bitcoin Builder::push_int as reference number encoder"],
+    "functions": ["miniscript::lex::lex (symbolically: all 1-opcode scripts, all 1-byte pushes, EQUAL/NUMEQUAL/CHECKSIG/CHECKMULTISIG followed by every opcode)", "script_num_size (all u32)", "natively per shape: Terminal::encode, Miniscript::script_size, Miniscript::decode_with_validation_params"],
+    "bounds": {"quick": "lexer: scripts of 1 opcode; 1-byte pushes; 2-opcode scripts whose first opcode is EQUAL, NUMEQUAL, CHECKSIG or CHECKMULTISIG; numbers: every u32; script_size == |encode| and native encode->decode round trip on every generated B-typed shape",
+               "thorough": "additionally 2-byte pushes and 2-opcode scripts starting with EQUALVERIFY, VERIFY, OP_2"},
+    "outside": ["scripts with more than one symbolic opcode position", "the decoder's grammar on scripts that are not encodings of generated shapes (decode is only run natively on encode() outputs; that part has no solver role and is reported as native_roundtrip_checked)", "real key parsing"],
+    "assumptions": ["native round-trip findings (decode(encode(ms)) bytes / type / size) are comparisons made by the generator on real library output and are reported as violations without a solver"],
+}
+PROPS["C09"]["functions"] = PROPS["C09"]["functions"] + ["varint_len, push_opcode_size (symbolically, all inputs; hook H3)"]
